@@ -252,6 +252,14 @@ func cloneAll(bs [][]byte) [][]byte {
 	return r
 }
 
+// safe runs f; a panic outside the engine's own recovery (while preparing inputs with the pristine
+// partner, enumerating accessors, …) is reported as an oracle violation instead of killing the run.
+func (e *engine) safe(what string, f func()) {
+	if pan := hlib.Recover(f); pan != "" {
+		e.o.Violate("%s: panic while preparing the test: %s", what, pan)
+	}
+}
+
 func (e *engine) skip(api, why string) {
 	if _, ok := e.skipped[api]; !ok {
 		e.skipped[api] = why
@@ -472,12 +480,37 @@ func (e *engine) runLayout(s spec, l layout, baseOuts [][]byte, baseRes, baseObs
 	e.apis[s.api]++
 	e.o.Count("api:" + s.api)
 	e.o.Count("layout:" + l.name)
+	if len(fs) > 0 {
+		if why := outOfScope(s.api); why != "" {
+			// not an operation a caller can reach with a byte slice of its own: recorded, not a contract line
+			sort.SliceStable(fs, func(i, j int) bool { return kindOrder[fs[i].kind] < kindOrder[fs[j].kind] })
+			e.o.Count("note/out-of-scope(" + why + "):" + s.api + ":" + fs[0].kind)
+			return
+		}
+	}
 	e.o.Emit(line, verdict(fs), true)
 	if len(fs) > 0 {
 		sort.SliceStable(fs, func(i, j int) bool { return kindOrder[fs[i].kind] < kindOrder[fs[j].kind] })
 		e.dirty[s.api+" "+fs[0].kind]++
 		e.o.Count("dirty:" + fs[0].kind)
 	}
+}
+
+// outOfScope names the api tokens whose findings are not violations of C19 as stated ("caller-provided byte
+// slice", operations of the library a user can call) and why:
+//   - "internal:" tokens are functions of Go-internal packages reached through verification hooks only; their
+//     public callers are tested in their own right (and pass library-owned copies);
+//   - the two subtle Ed25519 constructors take a *pointer* to a standard-library key object, i.e. the caller
+//     explicitly shares an object, it does not pass a byte slice.
+func outOfScope(api string) string {
+	if strings.HasPrefix(api, "internal:") {
+		return "internal-package"
+	}
+	switch api {
+	case "signature/subtle.NewED25519SignerFromPrivateKey", "signature/subtle.NewED25519VerifierFromPublicKey":
+		return "pointer-to-stdlib-key-object"
+	}
+	return ""
 }
 
 func verdict(fs []finding) string {
